@@ -1,7 +1,8 @@
 (* C32 — property theorems only.  Each is closed by `exact <lemma>` and followed by Print Assumptions.
    (Refutations / examples are closed by vm_compute on a concrete witness.) *)
 From Coq Require Import List ZArith NArith Arith Bool.
-From Verif.C32 Require Import Model Spec Proofs Walk Conserve Dia.
+From Coq Require Import Sorting.Sorted.
+From Verif.C32 Require Import Model Spec Proofs Walk Conserve Dia Meets.
 Import ListNotations.
 Open Scope Z_scope.
 
@@ -193,6 +194,32 @@ Theorem c32_emit_shape : forall r, ring_ok r -> cfg_ok r ->
          bk r' j = if existsb (fun c => existsb (Nat.eqb j) (c_buckets c)) sent then set_pushed (bk r j) else bk r j.
 Proof. exact emit_spec. Qed.
 Print Assumptions c32_emit_shape.
+
+(* ---- towards c32_model_meets_spec (exact acceptance of every model run by Spec.ok_trace): PARTIAL ----
+   Proved: the add clause (c32_model_meets_spec_add_partial above); the extensionality lemma for the sorted lists the
+   oracle compares (below); that Spec.group - the oracle's own grouping - is key-sorted and carries, per key, the sum
+   of the counts of its flows (below); and, semantically, everything the three remaining clauses assert about the
+   model (c32_query_sums_statistics, c32_query_sums_list, c32_emit_complete, c32_emit_at_most_once, c32_emit_terminates).
+   MISSING to turn these into `ok_trace n i now ops (run r0 ops) = true`:
+     (a) the StartTime/EndTime fields: AggregateWindows' a_start/a_end (with its "0 = unset" test, hence 0 < boh) equal
+         the Z.min / Z.max over the selected flows' bucket bounds that Spec.group_step keeps;
+     (b) Spec.bstart s t = b_start of the slot containing t when s_eoh s = eoh r (the computation is in the proof of
+         Proofs.add_meets_spec), so that Spec.in_reading with the readings (gte <= bs, be <= lt) for List and
+         (gte < be, be <= lt / be <= eoh - interval) for Statistics is Dia.lsel resp. the [lo, hi) test;
+     (c) NoDup (map a_key (list_flows ...)) / of the merged statistics (flow_set and stats_add keep keys distinct), to
+         apply sort_by_sorted and then sorted_lookup_ext on both sides;
+     (d) the simulation s_eoh = eoh r, s_log = run_log, s_emitted ~ the ghost list of Walk.pinv along ok_trace_from,
+         with the error case of Statistics (bounds outside the history, c32_one_bucket). *)
+Theorem c32_sorted_lookup_ext : forall A (l1 l2 : list (N * A)),
+  StronglySorted klt l1 -> StronglySorted klt l2 -> (forall k, alookup k l1 = alookup k l2) -> l1 = l2.
+Proof. exact sorted_lookup_ext. Qed.
+Print Assumptions c32_sorted_lookup_ext.
+
+Theorem c32_spec_group_sums_partial : forall interval (s : sstate) (kf : N -> N) fs,
+  StronglySorted klt (group interval s kf fs)
+  /\ forall k, cntof (alookup k (group interval s kf fs)) = sem (fun f => N.eqb (kf (f_key f)) k) fs.
+Proof. exact group_sums. Qed.
+Print Assumptions c32_spec_group_sums_partial.
 
 (* ---- the property is FALSE of the code as found (variant fw = fa = false); witnesses replayed on the real code ---- *)
 Definition fl (k : N) (t p b : Z) : flow := {| f_key := k; f_start := t; f_cnt := (p, b) |}.
